@@ -86,11 +86,11 @@ fn draw_cfg(ctx: &mut Ctx) -> Cfg {
         _ => *t.pick(&[8u32, 20, 40, 80, 200]),
     };
     let (restart_in, corrupt_in, byz, hosted_in) = match ctx.mode {
-        Prop::C01 => (*t.pick(&[0u32, 6, 12]), 0, 6, 0),
+        Prop::C01 => (*t.pick(&[0u32, 6, 12]), *t.pick(&[0u32, 0, 4]), 6, 0),
         Prop::C02 => (*t.pick(&[0u32, 12]), 0, 6, 0),
-        Prop::C03 => (*t.pick(&[2u32, 4, 8]), 0, 0, 0),
+        Prop::C03 => (*t.pick(&[2u32, 4, 8]), *t.pick(&[0u32, 0, 4]), 0, 0),
         Prop::C04 => (*t.pick(&[3u32, 6]), 0, 0, 0),
-        Prop::C05 => (*t.pick(&[1u32, 2, 4]), 0, 0, 0),
+        Prop::C05 => (*t.pick(&[1u32, 2, 4]), *t.pick(&[0u32, 0, 4]), 0, 0),
         Prop::C06 => (*t.pick(&[0u32, 8]), *t.pick(&[1u32, 1, 2]), 0, 0),
         Prop::C10 => (*t.pick(&[0u32, 10]), 0, 0, *t.pick(&[1u32, 2])),
         Prop::C11 | Prop::C12 | Prop::C13 => (*t.pick(&[0u32, 10]), 0, 0, *t.pick(&[2u32, 4, 8])),
@@ -488,7 +488,7 @@ fn compare_replica(ctx: &mut Ctx, live: &Board, replica: &Board, path: &'static 
     let b = surface(replica);
     let f = format!("{features};path={path}");
     if a.legals != b.legals {
-        return fail_any(ctx, &[(Prop::C03, "restart.legals"), (Prop::C05, "fen.reparse-differs.derived")], f, format!("legal moves differ between moved and recovered board ({fen})"));
+        return fail_any(ctx, &[(Prop::C03, "restart.legals"), (Prop::C05, "fen.reparse-differs.derived"), (Prop::C01, "legals.differ-between-loads")], f, format!("legal moves differ between two boards for the same position ({fen}): {:?} vs {:?}", a.legals.iter().map(|m| m.text()).collect::<Vec<_>>(), b.legals.iter().map(|m| m.text()).collect::<Vec<_>>()));
     }
     if a.in_check != b.in_check {
         return fail_any(ctx, &[(Prop::C03, "restart.in_check"), (Prop::C05, "fen.reparse-differs.derived")], f, format!("in_check differs ({fen})"));
@@ -784,9 +784,21 @@ fn corrupt_text(ctx: &mut Ctx, text: &str, other: &str) -> (Vec<u8>, String) {
         return (b, "random-bytes".to_string());
     }
     for _ in 0..n {
-        let which = ctx.tape.choose(12);
+        let which = ctx.tape.choose(13);
         let len = b.len() as u32;
         match which {
+            12 => {
+                // a record with a line ending or blanks around it (what a shell or a file gives)
+                let tail = *ctx.tape.pick(&["\n", "\r\n", " ", "  ", "\t", " \n"]);
+                if ctx.tape.choose(4) == 0 {
+                    let mut nb = tail.as_bytes().to_vec();
+                    nb.extend_from_slice(&b);
+                    b = nb;
+                } else {
+                    b.extend_from_slice(tail.as_bytes());
+                }
+                ops.push("whitespace-around");
+            }
             11 => {
                 // flood: whole ranks of one colour's pieces (far more than sixteen a side)
                 let s = String::from_utf8_lossy(&b).to_string();
@@ -1038,6 +1050,14 @@ fn accept(ctx: &mut Ctx, s: &mut Session, b: Board, how: &str, ops: &str, shown:
             return Ok(());
         }
         return ctx.fail(Prop::C06, &format!("{how}.accepted-invalid.{clause}"), String::new(), format!("accepted {shown:?} (damage: {ops}) which violates '{clause}'; read back as {}", got.fen()));
+    }
+    // whatever text or call sequence was accepted, the board must be the board of the position
+    // it reads back as: indistinguishable from the one loaded from that position's canonical text
+    if !got.has_backrank_pawn() && got.hmc <= 9999 && got.fmn <= 9999 {
+        if let Ok(canon) = op(Op::Parse, || sut::to_board(&got)) {
+            ctx.stats.bump("c06.accepted-compared-with-canonical-load");
+            compare_replica(ctx, &b, &canon, "accepted-record", &format!("how={how}"), &got.fen())?;
+        }
     }
     // the session continues from the accepted position in a drawn half of the cases
     if ctx.tape.choose(2) == 0 {
